@@ -7,14 +7,16 @@ wt=$1; name=$2; prop=$3; tier=${4:-quick}
 export GOFLAGS=-mod=mod GOPROXY=off GOSUMDB=off GOTOOLCHAIN=local
 cd "$wt" || exit 2
 [ -s patch.diff ] || { echo "no patch.diff"; exit 2; }
+# the tracked source state is exactly HEAD + patch.diff (guards against stash mix-ups between concurrent seeders)
+git checkout -q -- . && git apply patch.diff || { echo "patch.diff does not apply to HEAD"; exit 2; }
 demo=$(git status --porcelain | awk '/^\?\?/ && /seed_demo_test.go/ {print $2}' | head -1)
 [ -n "$demo" ] || { echo "no demo test"; exit 2; }
 pkg=./$(dirname "$demo")
 echo "== build"; go build ./... || { echo "BUILD FAILS"; exit 3; }
 echo "== suite with the change (demo skipped)"; go test -vet=off -count=1 -skip TestSeedDemo ./... 2>&1 | grep -v "no test files" | tail -25
 echo "== demo with the change (must FAIL)"; go test -vet=off -count=1 -run TestSeedDemo "$pkg" 2>&1 | tail -3
-git stash -q
+git apply -R patch.diff
 echo "== demo without the change (must PASS)"; go test -vet=off -count=1 -run TestSeedDemo "$pkg" 2>&1 | tail -2
-git stash pop -q
+git apply patch.diff
 # the demo file must not influence the check's harness build (it is a _test.go file, so it does not)
 echo "== check"; cd /verif; VERIF_REPO="$wt" ./check "$prop" --tier "$tier" 2>&1 | tail -8
